@@ -587,7 +587,7 @@ def register_lifecycle(spec):
     }, havoc=HAVOC)
 
     # ------------------------------------------------------------- entities
-    C(W + 'entities', params=P, props=['C01', 'C05'], requires=["wf(self, 'W')"],
+    C(W + 'entities', params=P, props=['C01', 'C05'], requires=["wf(self, 'W')"], returns=TList(Ent),
       ensures={
           'only-living': 'all(implies(0 <= i and i < len(result), result[i] in self._entities and '
                          'not (result[i] in self._dead_entities)) for i in Int)',
